@@ -51,7 +51,7 @@ func c05treeDesc(t map[string][]byte) string {
 func TestC05(t *testing.T) {
 	rep := lib.NewReport("C05", "exploration")
 	defer rep.Finish(t)
-	rep.Rule = "trees = all maps from {+p (sorts before .datamon), q, d/r} to {absent,c1,c2} (27); ALL 729 ordered pairs (A,B) (identical - the target is then a second bundle holding the same tree -, disjoint, same path same/different content, same content under another path, empty either side): core.Diff (archive vs archive, and local copy vs archive) = set computed from the two maps, each path once with the right type and entries; core.Update(target=B, local copy of A) leaves the destination (data files and .datamon metadata) byte-identical to a fresh Publish of B; destination stores: map store and localfs; plus, for A != B, the history 'download X (tree A), delete X, upload B under the preserved ID X, diff and update the old copy'; distinct = distinct (A,B) pairs"
+	rep.Rule = "trees = all maps from {+p (sorts before .datamon), q, d/r} to {absent,c1,c2} (27); ALL 729 ordered pairs (A,B) (identical - the target is then a second bundle holding the same tree -, disjoint, same path same/different content, same content under another path, empty either side): core.Diff (archive vs archive, and local copy vs archive) = set computed from the two maps, each path once with the right type and entries; core.Update(target=B, local copy of A) leaves the destination (data files and .datamon metadata) byte-identical to a fresh Publish of B; destination stores: map store and localfs; a sync loop in which ONE remote handle (retargeted through its BundleID field) and one local copy follow a chain through all 27 trees with the empty tree in between; plus, for A != B, the history 'download X (tree A), delete X, upload B under the preserved ID X, diff and update the old copy'; distinct = distinct (A,B) pairs"
 	L := 64
 	w := NewWorld()
 	w.Blob.NoJournal = true
@@ -284,6 +284,87 @@ func TestC05(t *testing.T) {
 		}
 	}
 	wg.Wait()
+	// a "sync loop": ONE remote handle, retargeted through its exported BundleID field, and one local copy follow a chain
+	// of bundles (every tree once, the empty tree between non-empty ones): stale state in a reused handle must not leak
+	// from one target to the next
+	{
+		chain := []int{}
+		for n := 1; n < 27; n++ {
+			chain = append(chain, n)
+		}
+		chain = append(chain, 0, 13, 0, 5, 5, 26)
+		dest := newDest(false)
+		if _, err := downloadBundle(st, "r", ids[chain[0]], dest, 0); err != nil {
+			t.Fatal(err)
+		}
+		remote := core.NewBundle(core.Repo("r"), core.ContextStores(st), core.Logger(nopLogger))
+		cur := chain[0]
+		for _, next := range chain[1:] {
+			A, B := c05tree(cur), c05tree(next)
+			desc := fmt.Sprintf("sync loop with one remote handle: step A=%s -> B=%s", c05treeDesc(A), c05treeDesc(B))
+			rp := map[string]interface{}{"A": c05treeDesc(A), "B": c05treeDesc(B), "reused_remote_handle": true}
+			want := map[string]string{}
+			for p, d := range A {
+				if d2, ok := B[p]; !ok {
+					want[p] = "D"
+				} else if !bytes.Equal(d, d2) {
+					want[p] = "U"
+				}
+			}
+			for p := range B {
+				if _, ok := A[p]; !ok {
+					want[p] = "A"
+				}
+			}
+			remote.BundleID = ids[next]
+			ok := true
+			guard(rep, "C05|sync-loop", func() string { return desc }, rp, func() {
+				diff, err := core.Diff(context.Background(), core.NewBundle(core.ConsumableStore(dest), core.Logger(nopLogger)), remote)
+				rep.Eval(1)
+				if err != nil {
+					rep.Violate("C05|sync-loop|diff-error", desc+": "+err.Error(), rp)
+				} else {
+					got := map[string]string{}
+					for _, e := range diff.Entries {
+						got[e.Name] = e.Type.String()
+					}
+					if fmt.Sprint(got) != fmt.Sprint(want) {
+						rep.Violate("C05|sync-loop|diff-wrong", fmt.Sprintf("%s: diff %v want %v", desc, got, want), rp)
+					}
+				}
+				if err := core.Update(context.Background(), remote, core.NewBundle(core.ConsumableStore(dest), core.Logger(nopLogger))); err != nil {
+					rep.Violate("C05|sync-loop|update-error", desc+": "+err.Error(), rp)
+					ok = false
+					return
+				}
+				rep.Eval(1)
+				fresh := newDest(false)
+				if _, err := downloadBundle(st, "r", ids[next], fresh, 0); err != nil {
+					rep.Violate("C05|sync-loop|fresh-download-error", desc+": "+err.Error(), rp)
+					ok = false
+					return
+				}
+				got, _ := storeFiles(dest)
+				wantFiles, _ := storeFiles(fresh)
+				if strings.Join(keysOf(got), ",") != strings.Join(keysOf(wantFiles), ",") {
+					rep.Violate("C05|sync-loop|update-differs-from-fresh-download", fmt.Sprintf("%s: destination has %v, fresh download of B has %v", desc, keysOf(got), keysOf(wantFiles)), rp)
+					ok = false
+					return
+				}
+				for k := range wantFiles {
+					if !bytes.Equal(got[k], wantFiles[k]) {
+						rep.Violate("C05|sync-loop|update-file-differs", fmt.Sprintf("%s: %q differs from a fresh download of B", desc, k), rp)
+						ok = false
+						return
+					}
+				}
+			})
+			if !ok {
+				break
+			}
+			cur = next
+		}
+	}
 	rep.Sample(map[string]interface{}{"A": c05treeDesc(c05tree(5)), "B": c05treeDesc(c05tree(22))})
 	sort.Strings(ids)
 }
